@@ -50,7 +50,7 @@ REQUIRED_THEOREMS = ['C19_interleaving_irrelevant', 'C19_interleaving_irrelevant
                      'C19_shared_write_breaks_interleaving', 'C19_shared_write_breaks_history',
                      'C19_private_writes_read_only', 'C19_allowed_store_private', 'C19_allowed_rejects_violations',
                      'effects_allowed', 'effects_nontrivial', 'time_now_pinned', 'sync_only_ctx_done']
-TIERS = {'quick': dict(n=8, m=200, hist=40, timeout=900), 'thorough': dict(n=32, m=2000, hist=400, timeout=7200)}
+TIERS = {'quick': dict(n=8, m=200, hist=40, timeout=900), 'thorough': dict(n=32, m=12000, hist=1200, timeout=7200)}
 
 CANNOT_EXHIBIT = [
     'actual goroutine interleavings below the granularity of a model step, and weak-memory (Go memory model) behaviours: '
